@@ -1,5 +1,5 @@
 """loop / conditional kernels (C06, C01, C02)."""
-from vxlib import Inst, CORE_TUS, SCALAR_STUBS, FMT_STUBS, CTX_STUBS, CONTAINER_STUBS
+from vxlib import Inst, CORE_TUS, SCALAR_STUBS, FMT_STUBS, CTX_STUBS, CONTAINER_STUBS, EMPTY_DECL_UNWIND
 
 FA_TUS = [t for t in CORE_TUS if t != "blocc/executable.cpp"] + ["blocc/statement_forall.cpp", "blocc/expression_variable.cpp"]
 TUS = [t for t in CORE_TUS if t != "blocc/executable.cpp"] + ["blocc/statement_for.cpp", "blocc/expression_variable.cpp"]
@@ -31,4 +31,16 @@ def instances():
         out.append(Inst(id="c06.forall.run.%s" % o, props=["C06", "C09", "C01"], harness="h_c06.cpp", entry="c06_forall_run", tus=FA_TUS + ["blocc/statement_for.cpp"],
                         defs=["VX_FORDER=%s" % on], stubs=FMT_STUBS + CTX_STUBS + CONTAINER_STUBS[3:], unwind=4, timeout=3000, tier="thorough",
                         bounds="table variable of 2 integers, complete traversal", inputs="element values, whether the body writes through the iterator, written value"))
+    CT = [t for t in CORE_TUS if t != "blocc/executable.cpp"] + ["blocc/statement_if.cpp", "blocc/statement_while.cpp"]
+    for rules, els, unt, q in ((1, 0, 0, True), (1, 1, 1, True), (2, 1, 0, True), (2, 1, 3, False), (2, 0, 1, False), (3, 1, 2, False)):
+        out.append(Inst(id="c04.if.r%d%s.u%d" % (rules, "e" if els else "", unt), props=["C04", "C06", "C01"], harness="h_cond.cpp", entry="c04_if", tus=CT,
+                        defs=["VX_RULES=%d" % rules, "VX_ELSE=%d" % els, "VX_UNTYPED=%d" % unt], stubs=FMT_STUBS + CTX_STUBS + CONTAINER_STUBS, unwind=6, unwindset=EMPTY_DECL_UNWIND, timeout=300,
+                        tier="quick" if q else "thorough", quick_also=["C06"] if (rules, els) == (2, 1) and q else [],
+                        bounds="if with %d conditional rule(s)%s; null conditions are %s" % (rules, " and else" if els else "", "untyped where bit k of %d is set, typed boolean nulls otherwise" % unt),
+                        inputs="per condition: truth value, null flag, lvalue flag"))
+    for unt in (0, 1):
+        out.append(Inst(id="c04.while.u%d" % unt, props=["C04", "C06", "C01"], harness="h_cond.cpp", entry="c04_while", tus=CT,
+                        defs=["VX_UNTYPED=%d" % unt], stubs=FMT_STUBS + CTX_STUBS + CONTAINER_STUBS, unwind=6, unwindset=EMPTY_DECL_UNWIND, timeout=300, quick_also=["C06"],
+                        bounds="one step of while (first entry or re-entry); a null condition is the %s" % ("untyped null" if unt else "typed boolean null"),
+                        inputs="truth value, null flag, lvalue flag of the condition; first entry or re-entry; what the body requests (nothing, break, continue, return)"))
     return out
